@@ -94,6 +94,63 @@ theorem converges_after_forks (evs : List Ev) (touches : Nat → Nat → Bool) (
     (s, b) ∈ (runEv touches g evs).2.p.indexed :=
   indexed_of_done (inv_runEv evs touches g hi ho) hdone hs ht hlo (Nat.le_trans hb htip)
 
+/-- **the limit of the two crash theorems, as a witness**: the deletions of the records above the
+fork point are writes of their own.  Script 1 waits for block 12 (record from 11); the chain forks
+at 10; the process dies after the deletion of the record, in front of the rollback batch.  If the
+restarted client then follows the OLD chain after all (the reorganisation was reorganised away
+meanwhile: no fork is detected, no rollback happens), block 12 is neither indexed nor pending and
+lies below the min filtered number: the invariant of the old chain is lost — only its part at or
+below the fork point survives (`fork_crash_keeps_shared_part`).  Not reproduced on the code: the
+crash enumeration of `./check C08` continues half of such runs on the old branch, none of the
+generated histories lost activity (DESIGN.md 10.12). -/
+theorem fork_crash_then_old_chain_is_not_covered :
+    let touches : Nat → Nat → Bool := fun s b => s == 1 && b == 12
+    let g : G := ⟨⟨[(1, 0)], 14, [⟨11, 4, [12]⟩], []⟩, fun _ => 0⟩
+    Inv touches g ∧
+    let p' := applyWs g.p ((forkWrites g.p 10).take 1)
+    p'.records = [] ∧ p'.minF = 14 ∧ ¬ Inv touches ⟨p', g.lo⟩ := by
+  intro touches g
+  refine ⟨?_, ?_⟩
+  · refine ⟨by decide, ?_, ?_, ?_, ?_, ?_, ?_⟩
+    · intro e he b ht hlo hb
+      have he' : e = (1, 0) := by simpa [g] using he
+      subst he'
+      simp at hb hlo; omega
+    · intro e he b ht _ hlt hb
+      have he' : e = (1, 0) := by simpa [g] using he
+      subst he'
+      have hb12 : b = 12 := by simpa [touches] using ht
+      subst hb12
+      exact Or.inr ⟨⟨11, 4, [12]⟩, by simp [g], by simp⟩
+    · intro r hr e he b h1 h2 ht _ hlt
+      have hr' : r = ⟨11, 4, [12]⟩ := by simpa [g] using hr
+      subst hr'
+      have he' : e = (1, 0) := by simpa [g] using he
+      subst he'
+      have hb12 : b = 12 := by simpa [touches] using ht
+      subst hb12
+      simp
+    · simp [g]
+    · intro r hr b hb
+      have hr' : r = ⟨11, 4, [12]⟩ := by simpa [g] using hr
+      subst hr'
+      have : b = 12 := by simpa using hb
+      subst this
+      simp
+    · intro r hr
+      have hr' : r = ⟨11, 4, [12]⟩ := by simpa [g] using hr
+      subst hr'
+      simp [g]
+  · intro p'
+    refine ⟨by decide, by decide, ?_⟩
+    intro h
+    have hc := h.cover (1, 0) (by decide) 12 (by decide) (by decide) (by decide) (by decide)
+    rcases hc with hc | ⟨r, hr, _⟩
+    · exact absurd hc (by decide)
+    · have hrec : p'.records = [] := by decide
+      have hr' : r ∈ p'.records := hr
+      rw [hrec] at hr'; cases hr'
+
 /-- non-vacuity: script 1 waits for block 5 (record from 1) and for block 12 (record from 11);
 the chain forks at 10: the premises hold, the second record goes, the first stays, filter sync
 resumes at 2 -/
